@@ -4,6 +4,7 @@ import (
 	"bytes"
 	"encoding/json"
 	"fmt"
+	"github.com/nyaruka/goflow/envs"
 	"sort"
 	"strings"
 	"time"
@@ -22,10 +23,13 @@ import (
 // C03 — every contact change is announced by an event that reproduces it.
 // Offline checker over the sprint log (replay model) + direct product contacts x modifiers.
 
-type c03 struct{ scenBase }
+type c03 struct {
+	scenBase
+	modEnv envs.Environment // environment of the modifier clauses of the case being run (one case at a time per process)
+}
 
 func init() {
-	fw.Register(&c03{scenBase{id: "C03", quickN: 4000, thorN: 300000}})
+	fw.Register(&c03{scenBase: scenBase{id: "C03", quickN: 4000, thorN: 300000}})
 }
 
 func (p *c03) Rule() string {
@@ -518,7 +522,9 @@ func (p *c03) genMods(r *fw.Rand, sa flows.SessionAssets, am gen.M, n int, long 
 				continue
 			}
 			f := fw.Pick(r, all)
-			v := fw.Pick(r, []string{"", "23", "17", "male", "bobby", "2018-05-05", "Kigali City", "Gasabo", "Gisozi", "23.0", " 23 ", "abc 23", "2017-12-02T10:00:00Z", "x", " ", "  \t ", "\n", "\u00a0", " x "})
+			v := fw.Pick(r, []string{"", "23", "17", "male", "bobby", "2018-05-05", "Kigali City", "Gasabo", "Gisozi", "23.0", " 23 ", "abc 23", "2017-12-02T10:00:00Z", "x", " ", "  \t ", "\n", "\u00a0", " x ",
+				// instants written with explicit offsets (whole-hour, half-hour, quarter-hour, with seconds), in the environment's own formats, date only
+				"2017-12-02T10:00:00+05:30", "2017-12-02T10:00:00.5-03:30", "2017-12-02T10:00:00+05:45", "2017-12-02T10:00:00-05:00", "2017-12-02T10:00:00.123456789+02:00", "02-12-2017 10:00", "12-02-2017 10:00", "2017-12-02 10:00", "2017-12-02"})
 			if long && r.Chance(0.5) {
 				v = gen.LongString(fw.Pick(r, []int{639, 640, 641, 700}), fw.Pick(r, []int{638, 639, 640})) + fw.Pick(r, []string{"", " 25", " 2019-12-25"})
 			}
@@ -577,9 +583,10 @@ func (p *c03) applyAndCheck(res *fw.Result, src *drive.Sources, eng flows.Engine
 	// both applications are made at the same instant (same clock / UUID source state): a date-only text on a datetime
 	// field takes its time of day from the clock by design, so idempotence is checked modulo the passing of time
 	st := src.Snapshot()
-	env := eng.Options()
-	_ = env
-	environment := gen.Env(fw.NewRand(1, "c03env", 0))
+	environment := p.modEnv
+	if environment == nil {
+		environment = gen.Env(fw.NewRand(1, "c03env", 0))
+	}
 	changedAny := false
 	for round := 1; round <= 2; round++ {
 		src.Restore(st)
@@ -655,6 +662,10 @@ func (p *c03) mods(res *fw.Result, r *fw.Rand, c fw.Case) {
 		res.Discarded = "unreadable contact: " + errClass(err.Error())
 		return
 	}
+	// the environment the modifiers are applied in varies with the case (time zones with and without whole-hour offsets,
+	// date formats, with and without a location resolver)
+	p.modEnv = gen.Env(r.Fork("modenv"))
+	defer func() { p.modEnv = nil }()
 	mods := p.genMods(r, rn.SA, scen.Assets, 12, long)
 	var descs []string
 	for _, m := range mods {
